@@ -211,7 +211,10 @@ def classify(cfg):
 
     mergers = [ipdom(b) for b in R if cfg[b][0] == "c"]
     mergers = [m for m in mergers if m is not None]
-    if len(set(mergers)) != len(mergers):
+    # branches whose merge point lies outside a loop they are in only leave that loop (break): not counted here
+    inner = [m for b in R if cfg[b][0] == "c" for m in [ipdom(b)]
+             if m is not None and not any(b in body and m not in body for body in loops.values())]
+    if len(set(inner)) != len(inner):
         return "P"  # two branches share their merge point (&&, ||, if without else nested at the end of an if)
     for h, body in loops.items():
         for b in body:
@@ -221,7 +224,30 @@ def classify(cfg):
     for b in R:
         if b not in loops and len([p for p in preds[b] if (p, b) not in back]) > 1 and b not in mergers:
             return "R"  # a join that is not the immediate post-dominator of any branch (e.g. after an early return)
+    for h1, body in loops.items():
+        for b in R:
+            if cfg[b][0] == "c" and b not in body and h1 in dom[b]:
+                seen, st = {b}, [b]
+                while st:
+                    x = st.pop()
+                    for t in cfg[x][1:]:
+                        if t not in seen:
+                            seen.add(t)
+                            st.append(t)
+                if any(h2 != h1 and h2 in seen for h2 in loops):
+                    return "T"  # a branch in the code that follows a loop, with another loop after it
     return "S"
+
+
+SMALL = 12
+
+
+def failure_class(cfg):
+    """signature suffix of a wrong structure: the CFG feature class; featureless ('S') CFGs are split by size"""
+    c = classify(cfg)
+    if c == "S" and len(cfg) > SMALL:
+        return "S-large"
+    return c
 
 
 def sim_cfg(cfg, xbits, maxsteps):
@@ -504,14 +530,27 @@ CORPUS = [
     ("nested-c-style", [("j", 1), ("c", 2, 6), ("j", 3), ("c", 4, 5), ("j", 3), ("j", 1), ("r",)]),
     ("if-in-loop", [("j", 1), ("c", 2, 6), ("c", 3, 4), ("j", 5), ("j", 5), ("j", 1), ("r",)]),
     ("two-returns", [("c", 1, 2), ("r",), ("r",)]),
+    ("break-in-two-ifs", [("j", 1), ("c", 2, 6), ("c", 3, 5), ("c", 6, 4), ("j", 5), ("j", 1), ("r",)]),
+    ("continue-in-two-ifs", [("j", 1), ("c", 2, 7), ("c", 3, 5), ("c", 1, 4), ("j", 5), ("j", 6), ("j", 1), ("r",)]),
+    ("break-and-continue", [("j", 1), ("c", 2, 6), ("c", 6, 3), ("c", 1, 4), ("j", 5), ("j", 1), ("r",)]),
     ("cjmp-same-target", [("c", 1, 1), ("r",)]),
     ("infinite-loop", [("j", 1), ("j", 1)]),
     # witnesses of the open findings (one per failure class)
-    ("finding-E", [("j", 1), ("c", 0, 2), ("r",)]),
+    ("finding-E", [("c", 1, 2), ("r",), ("c", 0, 2)]),
     ("finding-H", [("j", 1), ("c", 2, 3), ("r",), ("c", 1, 3)]),
     ("finding-I", [("c", 1, 2), ("j", 2), ("c", 1, 3), ("r",)]),
     ("finding-J", [("c", 1, 2), ("c", 1, 3), ("c", 1, 3), ("r",)]),
+    ("finding-M", [("c", 1, 2), ("c", 3, 2), ("r",), ("c", 4, 1), ("r",)]),
+    ("finding-N", [("j", 1), ("c", 2, 3), ("j", 4), ("r",), ("c", 5, 6), ("j", 4), ("j", 1)]),
+    ("finding-P", [("j", 1), ("c", 2, 3), ("c", 4, 5), ("r",), ("c", 6, 5), ("j", 3), ("j", 5)]),
+    ("finding-Q", [("c", 1, 2), ("c", 3, 4), ("r",), ("c", 3, 2), ("r",)]),
+    ("finding-R", [("j", 1), ("c", 2, 3), ("c", 4, 5), ("j", 6), ("j", 7), ("c", 8, 9), ("j", 10), ("r",), ("j", 3), ("r",),
+                   ("j", 11), ("c", 12, 6), ("j", 13), ("r",)]),
+    ("finding-T", [("j", 1), ("c", 2, 3), ("j", 1), ("j", 4), ("c", 5, 6), ("j", 6), ("j", 7), ("c", 8, 9), ("j", 10), ("r",),
+                   ("j", 7)]),
     ("finding-X", [("c", 1, 2), ("j", 1), ("c", 1, 3), ("r",)]),
+    ("finding-S-large", [("j", 1), ("c", 2, 3), ("j", 4), ("c", 5, 6), ("c", 7, 8), ("r",), ("c", 9, 10), ("j", 11), ("r",), ("j", 2),
+                         ("j", 2), ("j", 12), ("j", 13), ("c", 14, 15), ("j", 16), ("r",), ("j", 13)]),
 ]
 
 
@@ -667,7 +706,7 @@ def gen_c_function(rng):
 class Case:
     def __init__(self, origin, cfg, cap, module=None, extra=None):
         self.origin, self.cfg, self.cap, self.module, self.extra = origin, cfg, cap, module, extra or {}
-        self.cls = classify(cfg)
+        self.cls = failure_class(cfg)
 
 
 def run_wasm(cap, x):
@@ -689,8 +728,9 @@ def bits_to_x(bits):
     return sum(b << i for i, b in enumerate(bits))
 
 
-def handle_cases(ctx, cases):
-    """send every captured (cfg, shape, skeleton) to the Lean validator; evaluate the property"""
+def handle_cases(ctx, cases, extra=None):
+    """send every captured (cfg, shape, skeleton) to the Lean validator; evaluate the property.
+    `extra` = (requests, callback): further driver requests answered in the same driver run."""
     reqs, owners = [], []
     for c in cases:
         cap = c.cap
@@ -702,8 +742,18 @@ def handle_cases(ctx, cases):
             kind = exc_kind(cap.exc)
             ctx.count(f"refusal_{cap.exc_where}_{kind}")
             if cap.exc_where == "do_shape" and cap.shape is not None:
-                reqs.append("s " + " ".join(cap.shape))
-                owners.append(("s", c))
+                import traceback
+                frames = [fr.name for fr in traceback.extract_tb(cap.exc.__traceback__)]
+                if "do_block" in frames:
+                    # raised while translating the straight-line code of a block (e.g. UNDI32): expression level
+                    ctx.count("refusal_block_code_" + type(cap.exc).__name__)
+                elif isinstance(cap.exc, AssertionError) and str(cap.exc).strip().isdigit():
+                    # `assert self.stack == 0, str(self.stack)`: operand-stack bookkeeping of the block code
+                    # (a cjmp whose targets coincide leaves its condition behind) - not part of the shape model
+                    ctx.count("refusal_operand_stack_assertion")
+                else:
+                    reqs.append("s " + " ".join(cap.shape))
+                    owners.append(("s", c))
             continue
         ctx.count("programs")
         for p in cap.problems:
@@ -711,14 +761,21 @@ def handle_cases(ctx, cases):
                          {"origin": c.origin, "cfg": c.cfg}, p, "assumed by Model.Shape.exec")
         reqs.append("v " + cfg_tokens(c.cfg) + " | " + " ".join(cap.shape) + " | " + " ".join(cap.tokens))
         owners.append(("v", c))
-    replies = ctx.driver("C23", reqs) if reqs else []
+    nx = len(extra[0]) if extra else 0
+    replies = ctx.driver("C23", reqs + (extra[0] if extra else [])) if (reqs or nx) else []
+    if extra:
+        extra[1](replies[len(reqs):])
+        replies = replies[:len(reqs)]
     rejected = []
     for (kind, c), rq, rp in zip(owners, reqs, replies):
         cap = c.cap
         if kind == "s":
             impl = "err " + type(cap.exc).__name__
             if rp != impl:
-                ctx.disagree("do_shape model: exception", {"origin": c.origin, "cfg": c.cfg, "request": rq}, impl, rp)
+                import traceback
+                tb = traceback.extract_tb(cap.exc.__traceback__)[-1]
+                ctx.disagree("do_shape model: exception", {"origin": c.origin, "cfg": cfg_tokens(c.cfg), "request": rq,
+                                                          "exception": repr(cap.exc)[:200], "at": f"{tb.name}:{tb.line}"}, impl, rp)
             continue
         w = rp.split()
         if len(w) < 3 or w[0] != "ok":
@@ -736,21 +793,33 @@ def handle_cases(ctx, cases):
             rejected.append(c)
     # every rejection: search a concrete oracle
     if rejected:
-        dreq = ["d " + cfg_tokens(c.cfg) + " | " + " ".join(c.cap.tokens) + f" | 8 14 {min(2000, 100 + 3 * len(c.cap.tokens))}"
-                for c in rejected]
+        def fuel(c):
+            return min(3000, 150 + 3 * len(c.cap.tokens))
+        dreq = ["d " + cfg_tokens(c.cfg) + " | " + " ".join(c.cap.tokens) + f" | 6 14 {fuel(c)} 0" for c in rejected]
         drep = ctx.driver("C23", dreq)
+        again = [i for i, rp in enumerate(drep) if not rp.startswith("ok differ")]
+        if again:
+            dreq2 = ["d " + cfg_tokens(rejected[i].cfg) + " | " + " ".join(rejected[i].cap.tokens) + f" | 11 48 {fuel(rejected[i])} 300"
+                     for i in again]
+            for i, rp in zip(again, ctx.driver("C23", dreq2)):
+                drep[i], dreq[i] = rp, dreq2[again.index(i)]
         for c, rq, rp in zip(rejected, dreq, drep):
             case = {"origin": c.origin, "cfg": cfg_tokens(c.cfg), "class": c.cls, "skeleton": " ".join(c.cap.tokens),
                     "shape": " ".join(c.cap.shape)}
+            if "source" in c.extra:
+                case["source"] = c.extra["source"]
             if rp.startswith("ok differ"):
                 sig = f"structuring:wrong-skeleton:{c.cls}"
                 detail = dict(kv.split("=", 1) for kv in rp.split()[2:])
                 confirmed = confirm_by_execution(ctx, c, detail)
                 ctx.count("wrong_structure_" + c.cls)
+                if confirmed and confirmed.get("differs"):
+                    ctx.count("wrong_structure_confirmed_by_execution")
                 ctx.fail(sig, f"find_structure/do_shape emit a control skeleton whose block trace differs from the CFG's "
                               f"(CFG class {c.cls}): {rp[3:]}", case, oracle=detail, confirmed_by_execution=confirmed)
             else:
-                ctx.disagree("validator rejects the emitted skeleton but no differing oracle was found (8 decisions)", case, "emitted", rp)
+                ctx.disagree("validator rejects the emitted skeleton but no differing oracle was found "
+                             "(2^11 decision prefixes + 300 random oracles)", case, "emitted", rp)
     return rejected
 
 
@@ -758,6 +827,8 @@ def confirm_by_execution(ctx, c, detail):
     """replay the failing oracle on the real code: wasm on ppci's runtime vs the IR on ir_to_python"""
     if c.module is None or c.cap.wasm is None:
         return None
+    if ctx.counts["eval_replay_exec"] >= (250 if ctx.thorough else 60) and not c.origin.startswith("corpus"):
+        return None  # budget: the failing oracle itself is already concrete
     xb = [int(ch) for ch in detail.get("bits", "") if ch in "01"]
     hist, fin = sim_cfg(c.cfg, xb, 60)
     if not fin:
@@ -915,18 +986,58 @@ def exec_sanity(ctx, cases, limit):
                      f"was validated (expression-level translation or runtime fault)", case, wasm=r_w, ir=r_ir)
 
 
+def c_exec(ctx, cases, limit):
+    """failing-input search only: C functions whose structuring was validated are executed on ppci's own
+    wasm runtime and under ir_to_python with random arguments"""
+    from ppci.wasm import instantiate
+    from ppci.lang.python import ir_to_python
+    pool = [c for c in cases if "c_module" in c.extra and c.cap.exc is None and getattr(c, "accepted", False)]
+    for c in pool[:limit]:
+        try:
+            inst = instantiate(c.cap.wasm, target="python")
+            f = io.StringIO()
+            ir_to_python([c.extra["c_module"]], f)
+            ns = {}
+            exec(f.getvalue(), ns)
+        except Exception as e:  # noqa
+            ctx.count("c_exec_setup_error_" + type(e).__name__)
+            continue
+        for _ in range(3):
+            args = [ctx.rng.randint(-3, 12) for _ in range(3)]
+            try:
+                r_ir = ns["f"](*args)
+                r_w = inst.exports.f(*args)
+            except Exception as e:  # noqa
+                ctx.count("c_exec_error_" + type(e).__name__)
+                continue
+            ctx.count("eval_c_exec")
+            if r_ir != r_w:
+                ctx.fail("execution:wasm-result-differs:accepted-structure",
+                         f"f{tuple(args)} = {r_w} on ppci's wasm runtime but {r_ir} under ir_to_python although the control "
+                         f"skeleton was validated (expression-level translation, C22 runtime or ir_to_python fault)",
+                         {"origin": c.origin, "source": c.extra["source"], "args": args}, wasm=r_w, ir=r_ir)
+
+
 def capture_cfg(origin, cfg):
     m, f, blocks = build_module(cfg)
     cap = compile_capture(m, f, cfg, blocks)
     return Case(origin, cfg, cap, module=m)
 
 
+C_CORPUS = [
+    # witness of finding P at the C level: f(1,1) is 11, the wasm returns 21 (the join `r = r + 10` runs twice)
+    "int f(int a, int b, int c) { int r = 0; if (a < 9) { if (a > 0 && b > 0) { r = 1; } r = r + 10; } return r; }",
+    "int f(int a, int b, int c) { int r = 0; while (a > 0) { if (b > a) { r = r + b; } else { r = r + 1; } a = a - 1; } return r + c; }",
+    "int tab[4] = {10, 20, 30, 40}; char msg[] = \"hey\"; int f(int a, int b, int c) { if (a < 0 || a > 3) return msg[1]; return tab[a] + b; }",
+]
+
+
 def c_cases(ctx, n):
     from ppci import api
     from ppci.common import CompilerError
     out = []
-    for k in range(n):
-        src = gen_c_function(ctx.rng)
+    for k in range(len(C_CORPUS) + n):
+        src = C_CORPUS[k] if k < len(C_CORPUS) else gen_c_function(ctx.rng)
         for opt in (0, 2):
             try:
                 with contextlib.redirect_stdout(io.StringIO()):
@@ -948,7 +1059,7 @@ def c_cases(ctx, n):
                 continue
             cfg, blocks = r
             cap = compile_capture(m, f, cfg, blocks)
-            out.append(Case(f"c:O{opt}", cfg, cap, module=None, extra={"source": src}))
+            out.append(Case(f"c:O{opt}", cfg, cap, module=None, extra={"source": src, "c_module": m}))
             ctx.count(f"c_functions_O{opt}")
     return out
 
@@ -1030,17 +1141,29 @@ def dataseg_check(ctx, n):
         for (a1, (am1, _)), (a2, _v) in zip(zip(addrs, vs), list(zip(addrs, vs))[1:]):
             if a1 + am1 > a2:
                 ctx.fail("compile:globals-overlap", f"slots {a1}+{am1} and {a2} overlap", case)
-    out = ctx.driver("C23", reqs)
-    for rq, i, o, cs in zip(reqs, impls, out, cases):
-        if i != o:
-            ctx.disagree("DataSeg model", {"request": rq, **cs}, i, o)
-    if reqs:
-        ctx.sample({"dataseg_request": reqs[0], "impl": impls[0], "model": out[0]})
+    def finish(out):
+        for rq, i, o, cs in zip(reqs, impls, out, cases):
+            if i != o:
+                ctx.disagree("DataSeg model", {"request": rq, **cs}, i, o)
+        if reqs:
+            ctx.sample({"dataseg_request": reqs[0], "impl": impls[0], "model": out[0]})
+
+    return reqs, finish
 
 
 def check(ctx):
+    import logging
     import sys
     sys.setrecursionlimit(max(sys.getrecursionlimit(), 1000))
+    if not logging.getLogger().handlers:
+        logging.getLogger().addHandler(logging.NullHandler())  # ppci warnings would go to stderr otherwise
+    import time
+    phases, t0 = {}, [time.time()]
+
+    def lap(name):
+        phases[name] = round(time.time() - t0[0], 1)
+        t0[0] = time.time()
+    ctx.extra_cov["phase_s"] = phases
     cases = []
     # 1. corpus (boundary cases and the inputs of the open findings) always first
     for name, cfg in CORPUS:
@@ -1054,25 +1177,43 @@ def check(ctx):
     ctx.extra_cov["exhaustive_domain"] = f"all canonical CFGs with <= {nmax} blocks, out-degree <= 2"
     if not ctx.thorough:
         four = list(canon_cfgs(4))
-        for cfg in ctx.rng.sample(four, 500):
+        for cfg in ctx.rng.sample(four, 300):
             cases.append(capture_cfg("sample:4", cfg))
-    # 3. structured programs (as laid out by a C compiler, and after jump threading)
-    for _ in range(1500 if ctx.thorough else 150):
+    lap("exhaustive")
+    # 3a. small structured programs: the fragment the relooper handles (class S, <= SMALL blocks) is where a
+    #     regression shows up under a signature that is not a known finding
+    seen = set()
+    for _ in range(4000 if ctx.thorough else 400):
+        cfg = gen_structured(ctx.rng, budget=ctx.rng.randint(1, 3))
+        for c in (cfg, thread_jumps(cfg)):
+            if len(c) <= SMALL and tuple(c) not in seen and classify(c) == "S":
+                seen.add(tuple(c))
+                cases.append(capture_cfg("small-structured", c))
+    # 3b. structured programs (as laid out by a C compiler, and after jump threading)
+    for _ in range(500 if ctx.thorough else 60):
         cfg = gen_structured(ctx.rng)
         cases.append(capture_cfg("structured", cfg))
         t = thread_jumps(cfg)
         if t != cfg:
             cases.append(capture_cfg("structured-threaded", t))
+    lap("structured")
     # 4. random larger CFGs (reducible and irreducible)
-    for _ in range(3000 if ctx.thorough else 200):
+    for _ in range(1500 if ctx.thorough else 150):
         cases.append(capture_cfg("random", gen_random(ctx.rng)))
+    lap("random")
     # 5. C functions through the front-end, with and without optimisation
-    cases += c_cases(ctx, 300 if ctx.thorough else 30)
-    handle_cases(ctx, cases)
+    cases += c_cases(ctx, 150 if ctx.thorough else 20)
+    lap("c")
+    # 7. data segments (second sliver); its driver requests ride along with the validation batch
+    ds = dataseg_check(ctx, 200 if ctx.thorough else 25)
+    lap("dataseg")
+    handle_cases(ctx, cases, extra=ds)
+    lap("validate+search+replay")
+    c_exec(ctx, cases, 120 if ctx.thorough else 15)
+    lap("c_exec")
     # 6. execution-level sanity of the skeleton semantics on accepted outputs
     exec_sanity(ctx, cases, 200 if ctx.thorough else 30)
-    # 7. data segments
-    dataseg_check(ctx, 200 if ctx.thorough else 25)
+    lap("exec_sanity")
     refusals = {k: v for k, v in ctx.counts.items() if k.startswith("refusal_")}
     internal = sum(v for k, v in refusals.items() if "internal:" in k)
     if internal:
